@@ -173,6 +173,9 @@ class _Run:
             if op.get('num') is not None:
                 items.append(('n', op['num']))
             self.last_update_items = list(items)
+            if inject is not None and inject[0] == 'update' and inject[3] == 'notmapping':
+                obj.param.update(5)         # an argument that is no mapping: the call fails as a whole
+                return
             if inject is not None and inject[0] == 'update':
                 bad = {'range': ('n', 999), 'type': ('n', 'not a number'), 'unknown': ('no_such_parameter', 1)}[inject[3]]
                 if bad[0] == 'n':
@@ -239,6 +242,7 @@ class _Run:
                     for kk in range(n_items + 1):
                         for how in ('range', 'type', 'unknown'):
                             sites.append(('update', i, kk, how))
+                    sites.append(('update', i, 0, 'notmapping'))
                 if op['op'] == 'trigger':
                     for kk in range(len(op['ps']) + 1):
                         sites.append(('trigger', i, kk))
